@@ -8,7 +8,9 @@ _PENDING_ON = not os.environ.get('NMV_NO_PENDING')
 _US = ['in_pair32.0:11', 'in_pairf.0:11', 'eq_data.0:11', 'close_data.0:11', 'k_fill_u32.0:11', 'k_fill_f32.0:11',
        'k_fill_u32_dbg.0:11', 'k_fill_f32_dbg.0:11', 'll_memcpy_loop.0:40', 'll_memmove_loop.0:40', 'll_memmove_loop.1:40', 'll_memset_loop.0:40']
 HARNESSES = []
-def _h(name, bounds, unwind=6, quick=None, thorough=None, dbg_kf=True, dbg=True, kf=None, **kw):
+def _h(name, bounds, unwind=6, quick=None, thorough=None, dbg_kf=True, dbg=True, kf=None, dbg_quick=True, dbg_filter=None, **kw):
+    """dbg_quick=False: the asserts-on twin runs in the thorough tier only (no assert is involved in that code path; budget).
+    dbg_filter: keeps, for the asserts-on twin, only the configurations that are not wholly inside the pending finding's region (mismatching dims abort)."""
     quick = quick or [{}]; thorough = thorough or quick
     base = {'_unwindset': _US}
     if kf and _PENDING_ON: base[kf] = 1            # TEMPORARY: pending finding (see PENDING_FINDINGS)
@@ -20,7 +22,8 @@ def _h(name, bounds, unwind=6, quick=None, thorough=None, dbg_kf=True, dbg=True,
         if dbg_kf and _PENDING_ON: extra['KF_C18_DBG_MISMATCH_ABORTS'] = 1      # TEMPORARY: pending finding C18-dbg-mismatch-aborts
         HARNESSES.append(dict(name=name + '_dbg', src='harnesses/C18.c', func='h_' + name, kernels=['C18_compare_dbg'], unwind=unwind,
                               bounds='asserts-on build; ' + bounds + ('; operands of different length/dim/shape excluded (pending finding: assert() aborts)' if dbg_kf else ''),
-                              quick=cfgs(quick, extra), thorough=cfgs(thorough, extra), **kw))
+                              quick=cfgs([c for c in quick if not (dbg_filter and dbg_kf and _PENDING_ON) or dbg_filter(c)] if dbg_quick else [], extra),
+                              thorough=cfgs([c for c in thorough if not (dbg_filter and dbg_kf and _PENDING_ON) or dbg_filter(c)], extra), thorough_includes_quick=dbg_quick, **kw))
 
 IDX = 'lengths 0..4 symbolic on both sides, all element values (64-bit) symbolic, cells beyond the logical length of bounded vectors symbolic (stale); both call orders'
 NS = [{'N': n} for n in (1, 2, 3, 4)]
@@ -33,33 +36,37 @@ _h('idx_arr_arr', 'std::array<size_t,N> pairs of the same N (different N does no
 _h('idx_svi_sv', 'static_vector<int,4> / static_vector<size_t,4>; ' + IDX, kf='KF_C18_EQ_MIXED_SIGN_TRUNCATES')
 _h('num', 'size_t/size_t and int/unsigned scalars, all values', dbg_kf=False)
 FL = 'every bit pattern (NaN, infinities, denormals, signed zeros included) for both operands and eps'
-_h('close_f32', 'float/float scalars; ' + FL, dbg_kf=False, backend='cadical')
-_h('close_lemma', 'symmetry of the reference |a-b| < eps itself (IEEE-754), float and double; ' + FL, dbg=False, backend='cadical', quick=[{'LEMMA': 32}, {'LEMMA': 64}], gate=False)
-_h('close_f64', 'double/double scalars; ' + FL, dbg_kf=False, backend='cadical', kf='KF_C18_CLOSE_DOUBLE_ROUNDS_TO_FLOAT')
-_h('close_f32_f64', 'float/double scalars; ' + FL, dbg_kf=False, backend='cadical', kf='KF_C18_CLOSE_DOUBLE_ROUNDS_TO_FLOAT')
+FA = ('quick tier: element values and eps from the alphabet {0, 1, 1.5, -1, 1.0000001, 2.5, 1e30, NaN} (the element-level comparison is decided over all bit patterns in close_f32/close_f64); '
+      'thorough tier: every bit pattern')
+_h('close_f32', 'float/float scalars; ' + FL, dbg_kf=False, backend='cadical', dbg_quick=False)
+_h('close_lemma', 'symmetry of the reference |a-b| < eps itself (IEEE-754), float (quick) and double (thorough); ' + FL, dbg=False, backend='cadical', quick=[{'LEMMA': 32}], thorough=[{'LEMMA': 32}, {'LEMMA': 64}], gate=False)
+_h('close_f64', 'double/double scalars; ' + FL, dbg_kf=False, backend='cadical', kf='KF_C18_CLOSE_DOUBLE_ROUNDS_TO_FLOAT', dbg_quick=False)
+_h('close_f32_f64', 'float/double scalars; ' + FL, dbg_kf=False, backend='cadical', kf='KF_C18_CLOSE_DOUBLE_ROUNDS_TO_FLOAT', dbg_quick=False)
 _h('close_uint', 'unsigned/unsigned scalars, double eps: all values', dbg_kf=False, kf='KF_C18_CLOSE_UNSIGNED_WRAPS')
 _h('close_int', 'int/int scalars, double eps: all values', dbg_kf=False, kf='KF_C18_CLOSE_INT_OVERFLOW')
 ND = 'extents 0..MAXE symbolic on both sides (same shape, same size with another shape, other sizes), all element data symbolic; both call orders'
 DIMS = [{'NA': a, 'NB': b} for a in (1, 2, 3) for b in (1, 2, 3) if a <= b]
+SAMED = lambda c: c.get('NA') == c.get('NB', 2)
 _h('nd_h2_h2', 'hybrid 2-d (capacity 9) pairs; ' + ND, unwind=12, dbg_kf=False)
-_h('nd_dimdiff', 'hybrid 2-d vs 1-d and 2-d vs 3-d; ' + ND, unwind=12)
+_h('nd_dimdiff', 'hybrid 2-d vs 1-d and 2-d vs 3-d; ' + ND, unwind=12, dbg=not _PENDING_ON, dbg_kf=False)   # asserts-on twin: the whole domain is inside the pending finding (dimension mismatch aborts)
 _h('nd_f23_h2', 'fixed_ndarray<unsigned,2,3> vs hybrid 2-d; ' + ND, unwind=12, dbg_kf=False)
-_h('nd_b_b', 'ndarray_t<static_vector<unsigned,9>, static_vector<size_t,3>> pairs, dims (NA,NB) per-query constants 1..3 (every unordered pair), product <= CAPB; ' + ND, unwind=12,
-   quick=[dict(d, CAPB=6) for d in DIMS], thorough=[dict(d, CAPB=9) for d in DIMS])
-_h('nd_d_d', 'ndarray_t<std::vector<unsigned>, std::vector<size_t>> pairs, dims (NA,NB) per-query constants 1..3, product <= CAPB; ' + ND, unwind=12,
-   quick=[dict(d, CAPB=4, MAXE=2) for d in DIMS], thorough=[dict(d, CAPB=6) for d in DIMS])
-_h('nd_d_h2', 'dynamic (dim NA per-query constant 1..3) vs hybrid 2-d; ' + ND, unwind=12, quick=[{'NA': a, 'CAPB': 4, 'MAXE': 2} for a in (1, 2, 3)], thorough=[{'NA': a, 'CAPB': 6} for a in (1, 2, 3)])
-_h('close_h2_h2', 'isclose on hybrid float 2-d pairs, eps and all data any bit pattern; ' + ND, unwind=12, quick=[{'MAXE': 2}], thorough=[{'MAXE': 3}], backend='cadical')
-_h('close_b_b', 'isclose on bounded-dim float arrays, dims (NA,NB) per-query constants; ' + ND, unwind=12, quick=[dict(d, CAPB=4, MAXE=2) for d in DIMS], thorough=[dict(d, CAPB=6) for d in DIMS], backend='cadical')
+_h('nd_b_b', 'ndarray_t<static_vector<unsigned,9>, static_vector<size_t,3>> pairs, dims (NA,NB) per-query constants 1..3 (every unordered pair), product <= CAPB; ' + ND, unwind=7,
+   quick=[dict(d, CAPB=4, MAXE=4) for d in DIMS], thorough=[dict(d, CAPB=6, MAXE=3, _unwind=9) for d in DIMS], dbg_filter=SAMED)
+_h('nd_d_d', 'ndarray_t<std::vector<unsigned>, std::vector<size_t>> pairs, dims (NA,NB) per-query constants 1..3, product <= CAPB; ' + ND, unwind=7,
+   quick=[dict(d, CAPB=4, MAXE=2) for d in DIMS], thorough=[dict(d, CAPB=4, MAXE=4) for d in DIMS], dbg_filter=SAMED, mem_gb=6)
+_h('nd_d_h2', 'dynamic (dim NA per-query constant 1..3) vs hybrid 2-d; ' + ND, unwind=7, quick=[{'NA': a, 'CAPB': 4, 'MAXE': 2} for a in (1, 2, 3)], thorough=[{'NA': a, 'CAPB': 4, 'MAXE': 4} for a in (1, 2, 3)], dbg_filter=SAMED, mem_gb=6)
+_h('close_h2_h2', 'isclose on hybrid float 2-d pairs; ' + FA + '; ' + ND, unwind=7, quick=[{'MAXE': 2, 'FALPHA': 1}], thorough=[{'MAXE': 2}], backend='cadical')
+_h('close_b_b', 'isclose on bounded-dim float arrays, dims (NA,NB) per-query constants (isclose of different dims aborts/returns false); ' + FA + '; ' + ND, unwind=7,
+   quick=[dict(d, CAPB=4, MAXE=2, FALPHA=1) for d in DIMS], thorough=[dict(d, CAPB=4, MAXE=2) for d in DIMS], backend='cadical', dbg_filter=SAMED)
 _h('maybe', 'optional<static_vector> and utl::maybe<static_vector> pairs: has_value flags, lengths 0..4, values symbolic')
 _h('maybe_value', 'optional<static_vector> against a plain value and against Nothing; None/None')
-_h('close_maybe', 'isclose optional<float> pairs / against a value; every bit pattern', dbg_kf=False, backend='cadical')
+_h('close_maybe', 'isclose optional<float> pairs / against a value; ' + FA, dbg_kf=False, backend='cadical', quick=[{'FALPHA': 1}], thorough=[{}], dbg_quick=False)
 _h('either', 'variant<size_t, static_vector> pairs: active alternative, lengths, values symbolic')
 _h('either_value', 'variant<size_t, static_vector> against a scalar / an index array')
-_h('close_either', 'isclose variant<float, hybrid 1-d float> pairs (same shape), extents 0..MAXE', unwind=12, dbg_kf=False, backend='cadical')
-_h('close_either_value', 'isclose variant<float, hybrid 1-d float> against a float scalar', unwind=12, dbg_kf=False, kf='KF_C18_CLOSE_EITHER_DROPS_EPS', backend='cadical')
+_h('close_either', 'isclose variant<float, hybrid 1-d float> pairs (same shape), extents 0..MAXE; ' + FA, unwind=7, dbg_kf=False, backend='cadical', quick=[{'FALPHA': 1}], thorough=[{}], dbg_quick=False)
+_h('close_either_value', 'isclose variant<float, hybrid 1-d float> against a float scalar; ' + FA, unwind=7, dbg_kf=False, kf='KF_C18_CLOSE_EITHER_DROPS_EPS', backend='cadical', quick=[{'FALPHA': 1}], thorough=[{}], dbg_quick=False)
 _h('tuple', 'tuple<size_t x3> pairs, tuple/array', dbg_kf=False)
-_h('close_tuple', 'isclose tuple<float,float> pairs', dbg_kf=False, backend='cadical')
+_h('close_tuple', 'isclose tuple<float,float> pairs; ' + FA, dbg_kf=False, backend='cadical', quick=[{'FALPHA': 1}], thorough=[{}], dbg_quick=False)
 _h('tuple_mixed', 'tuple<size_t, static_vector, optional<static_vector>> pairs, all members symbolic')
 
 PENDING_FINDINGS = []
